@@ -68,7 +68,9 @@ def stream_chain(R, tier, seed):
         for (nx, ny) in ([(2, 3), (3, 5)] if tier == "quick" else [(2, 3), (3, 5), (2, 7), (4, 5)]):
             for defaults in (False, True):
                 m = gen.rand_mesh(rng, nx, ny, kind, plain=False)
-                sym = kind != "full"; rap = float(rng.choice([0.25, 0.6]))
+                # the end points 0 (leading edge) and 1 (trailing edge) of the documented range belong to the sample: a seeded change
+                # that read `surface.get("ref_axis_pos") or 0.25` (0.0 is falsy) was missed when only interior values were drawn
+                sym = kind != "full"; rap = float([0.0, 0.25, 1.0, 0.6][len(meta) % 4])
                 ra = rap * m[-1] + (1 - rap) * m[0]
                 cur_span = (ra[:, 1].max() - ra[:, 1].min()) * (2.0 if sym else 1.0)
                 if defaults:
